@@ -531,25 +531,32 @@ Definition minit (t : tables) (q : quirks) := init tV tJ tJ_eqb (T_vj t) q.
 Definition predict (t : tables) (fmt : Z) (js : list tJ) (ps : list op) (q : quirks) : list obsres :=
   map (obs_res t) (snd (run tV tJ tJ_eqb (T_vj t) (T_cv t) (T_fmt_to t) (t_cv_iter t) q (minit t q fmt js) ps)).
 
-Fixpoint first_match (ob : obsres) (preds : list obsres) (i : Z) : Z :=
+(* a variant explains a node only if it has explained every node on the way to it (`alive`): a variant whose
+   state has already diverged from the implementation can agree with a later observation only by accident.
+   The specification (position 0) is exempt: an observation equal to its prediction is verdict 0. *)
+Fixpoint first_match (ob : obsres) (preds : list (obsres * bool)) (i : Z) : Z :=
   match preds with
   | [] => 1
-  | p :: r => if obsres_eqb ob p then (if i =? 0 then 0 else i + 1) else first_match ob r (i + 1)
+  | (p, live) :: r =>
+    if obsres_eqb ob p && (live || (i =? 0)) then (if i =? 0 then 0 else i + 1)
+    else first_match ob r (i + 1)
   end.
 
 (* one node of a history tree: operation, what the implementation returned, names of earlier
    objects whose observable content changed during the step (must be empty), subtrees *)
 Inductive trie : Type := Node (p : op) (ob : obsres) (changed : list Z) (kids : list trie).
 
-Fixpoint check_trie (t : tables) (sts : list (state tV tJ)) (n : trie) : list Z :=
+Fixpoint check_trie (t : tables) (sts : list (state tV tJ * bool)) (n : trie) : list Z :=
   match n with
   | Node p ob changed kids =>
-    let rs := map (fun qs => mstep t (fst qs) (snd qs) p) (combine variants sts) in
+    let rs := map (fun qs => (mstep t (fst qs) (fst (snd qs)) p, snd (snd qs))) (combine variants sts) in
+    let preds := map (fun r => (obs_res t (snd (fst r)), snd r)) rs in
     let v := match changed with
-             | [] => first_match ob (map (fun r => obs_res t (snd r)) rs) 0
+             | [] => first_match ob preds 0
              | _ => 1
              end in
-    v :: flat_map (check_trie t (map fst rs)) kids
+    let sts' := map (fun r => (fst (fst r), snd r && obsres_eqb ob (obs_res t (snd (fst r))))) rs in
+    v :: flat_map (check_trie t sts') kids
   end.
 
 (* a case: tables, format of the root, jd pairs of the root, observation of the root, history trees *)
@@ -558,7 +565,7 @@ Definition case : Type := (tables * Z * list tJ * oobs * list trie)%type.
 Definition check_case (c : case) : list Z :=
   match c with
   | (t, fmt, js, rootobs, tries) =>
-    let sts := map (fun q => minit t q fmt js) variants in
+    let sts := map (fun q => (minit t q fmt js, true)) variants in
     let v0 := if oobs_eqb rootobs (obs_of t (root_obj tV tJ (T_vj t) fmt js) false) then 0 else 1 in
     v0 :: flat_map (check_trie t sts) tries
   end.
